@@ -34,7 +34,9 @@ import Thanos.Model.CompactSync
   C33   c33.fault <layout> <lister> <call> <sync> <readKind> <n> <outcome>     (layout, lister, call, sync, n: for the Go side)
           readKind = listing | exists-meta | get-meta | get-deletion-mark | get-no-compact-mark
           outcome  = notfound | corrupt | badversion | failed
-        answer: sync=<failed|ok> compact=<err|ok> writes-after=<0|n/a>
+        answer: sync=failed compact=err writes-after=0 | sync=ok compact=n/a writes-after=n/a
+        c33.multi <layout> <lister> <conc> <call> <sync> <faults>     faults = <readKind>:<n>:<outcome>,…  (several reads of ONE sync)
+        answer: as above
 -/
 open Thanos Thanos.Parse
 
@@ -278,11 +280,29 @@ def c33Fault (kind outcome : String) : String :=
     -- every other read of the iteration succeeds; the writes are abstract (one token)
     let r := CompactSync.iteration [(k, o)] ["w"]
     if r.1 then s!"sync=failed compact=err writes-after={r.2.length}"
-    else "sync=ok compact=ok writes-after=n/a"
+    else "sync=ok compact=n/a writes-after=n/a"
   | _, _ => "bad-op"
+
+def parseFault (t : String) : Option (CompactSync.ReadKind × CompactSync.Outcome) :=
+  match splitChar ':' t with
+  | [k, _, o] => do
+    let k ← parseReadKind k
+    let o ← parseOutcome o
+    pure (k, o)
+  | _ => none
+
+def c33Multi (faults : String) : String :=
+  match (listOf ',' faults).mapM parseFault with
+  | some fs =>
+    if fs.isEmpty then "bad-op" else
+    let r := CompactSync.iteration fs ["w"]
+    if r.1 then s!"sync=failed compact=err writes-after={r.2.length}"
+    else "sync=ok compact=n/a writes-after=n/a"
+  | none => "bad-op"
 
 def handle : List String → String
   | ["blk.run", chunks, index, steps] => blkRun chunks index steps
+  | ["c33.multi", _, _, _, _, _, faults] => c33Multi faults
   | ["c33.fault", _, _, _, _, kind, _, outcome] => c33Fault kind outcome
   | ["ship.run", cfg, blocks, steps] => shipRun cfg blocks steps
   | ["c32.ret", now, rets, blocks] => c32Ret now rets blocks
